@@ -11,7 +11,7 @@ PurposeFilters == {{"metric"}}
 PurposeActions == {"metric"}
 ASSUME TLCSet(7, {})
 \* breadth-first, one worker: the first (= a shortest) history for every label is printed
-EmitPurpose == (hist # <<>> /\ hist[Len(hist)].act = "Report")
+EmitPurpose == (hist # <<>> /\ hist[Len(hist)].act \in {"Report", "Housekeeping"})
                => LET fresh == hist[Len(hist)].sit \ TLCGet(7)
                   IN fresh # {} => (PrintT(<<"BEH", ToJson(hist)>>) /\ TLCSet(7, TLCGet(7) \cup fresh))
 ====
